@@ -62,6 +62,10 @@ def gen_box(rng, kind):
     elif kind == "constant":
         c = float(rng.randint(-3, 3))
         left, right = [c] * n, [c + rng.choice([0.0, 2.0])] * n
+    elif kind == "scaled":            # the step / integer shapes at tiny and huge magnitudes (powers of two stay exact)
+        l0, r0 = gen_box(rng, rng.choice(["steps", "integer", "mixed"]))
+        sc = rng.choice([2.0 ** -70, 2.0 ** -30, 2.0 ** 36, 1e-19, 1e-170, 1e150])
+        return [x * sc for x in l0], [x * sc for x in r0]
     elif kind == "thin":              # relative width 1e-9 .. 1e-5: not degenerate, but np.isclose would say so
         base = rng.uniform(1, 50)
         eps = 10 ** rng.uniform(-9, -5)
@@ -92,7 +96,7 @@ def gen_box(rng, kind):
     return [float(x) for x in left], [float(x) for x in right]
 
 
-KINDS = ["continuous", "shifted", "steps", "integer", "degenerate", "constant", "mixed", "thin", "steps", "integer", "tiny", "extreme"]
+KINDS = ["continuous", "shifted", "steps", "integer", "degenerate", "constant", "mixed", "thin", "steps", "integer", "tiny", "extreme", "scaled", "scaled"]
 
 
 def ctor_boxes(rng):
@@ -109,6 +113,12 @@ def ctor_boxes(rng):
           ("min_mean", lambda: pf.min_mean(0, 2 + rng.random(), steps=k())),
           ("max_mean", lambda: pf.max_mean(b, b - 2, steps=k())),
           ("mean_std", lambda: pf.mean_std(1.0, 2.0, steps=k()))]
+    from pyuncertainnumber.pba.pbox_abc import Staircase as _S
+    for m_ in (rng.choice([2, 5, 50]), 198, 199, 201, 202, rng.choice([400, 1000])):
+        base = sorted(rng.uniform(-5, 5) for _ in range(m_))
+        wid = rng.choice([0.0, 0.5, 2.0])
+        mk.append((f"bounds-of-length-{'short' if m_ < 198 else ('long' if m_ > 202 else m_)}",
+                   lambda base=base, wid=wid: _S(left=np.array(base), right=np.array(base) + wid)))
     out = []
     for name, f in mk:
         try:
@@ -133,6 +143,11 @@ def build_box(Staircase, rng, left, right):
     if ints and min(left) >= 0 and rng.random() < 0.3:      # unsigned-integer dtype bounds
         dt = rng.choice([np.uint16, np.uint32, np.uint64]) if max(right) < 60000 else np.uint64
         return "uint-array", Staircase(left=np.array([int(x) for x in left], dtype=dt), right=np.array([int(x) for x in right], dtype=dt))
+    if rng.random() < 0.2:            # a copied / pickled p-box must answer like the original
+        import copy, pickle
+        how = rng.choice(["copy", "deepcopy", "pickle"])
+        P0 = Staircase(left=np.array(left), right=np.array(right))
+        return how, {"copy": copy.copy, "deepcopy": copy.deepcopy, "pickle": lambda o: pickle.loads(pickle.dumps(o))}[how](P0)
     if mode == "steps-kw":            # a non-default `steps=` keyword: the bounds stay 200 long, the grid must too
         return mode, Staircase(left=np.array(left), right=np.array(right), steps=rng.choice([10, 50, 100, 199, 201, 400]))
     if mode == "leaf-steps-kw":
@@ -346,11 +361,13 @@ def gen_queries(rng, Gf, left, right, tier_scale):
     Q.append(("cdfs", [float(rng.choice(xs)) for _ in range(rng.randint(1, 10))]))
     # discretisations
     Q.append(("disc", rng.choice([None, N])))
-    Q.append(("disc", rng.choice([2, 3, 5, 10, 50, 100, 199, 201, 333, rng.randint(2, 200)])))
-    for m in {rng.choice([None, 2, 3, 4, 5, 200]), rng.randint(2, 200)}:
+    Q.append(("disc", rng.choice([2, 3, 5, 10, 50, 100, 198, 199, 201, 202, 333, rng.randint(2, 200)])))
+    for m in {rng.choice([None, 2, 3, 4, 5, 198, 199, 200]), rng.randint(2, 200)}:
         Q.append(("outer", m))
-    for m in {rng.choice([2, 3, 4, 5, 10, 200]), rng.randint(2, 200)}:
+    for m in {rng.choice([2, 3, 4, 5, 10, 198, 199, 200]), rng.randint(2, 200)}:
         Q.append(("cond", m))
+    Q.append(("cdf", rng.choice([0, 0.0, -0.0])))                    # falsy but valid arguments
+    Q.append(("cut", rng.choice([-0.0, 0.0, 0])))
     # prediction intervals: pairs of coverage levels, both styles
     al = sorted(rng.sample([0, 1, 0.5, 0.9, 0.95, 0.99, 0.999, 0.1, 0.25, 0.75, rng.random(), rng.random(), rng.randrange(1, 1024) / 1024], 3))
     for a in al:
@@ -394,7 +411,7 @@ def run(ctx: core.Check):
     GX = GridX(Gf)
     rng = ctx.rng
     boxes = []
-    nb = ctx.scale(98, 1000)
+    nb = ctx.scale(84, 1000)
     prebuilt = {}
     for b in range(nb):
         kind = KINDS[b % len(KINDS)]
